@@ -249,7 +249,7 @@ RULES = [
 
 
 from . import shared
-RULES = RULES + shared.bundle('C14', ['gate', 'restart', 'driver', 'norm', 'loops'], ['kernel'])
+RULES = RULES + shared.bundle('C14', ['drivers', 'gpu', 'gate', 'restart', 'driver', 'norm', 'loops'], ['kernel'])
 from . import folds as _folds
 RULES = RULES + [_folds.fold_rule('C14')]
 from .. import refs as _refs
